@@ -349,7 +349,9 @@ func (f *FnEnc) encode() {
 	if f.c != nil {
 		uses = f.c.Uses
 	}
+	f.theoryStart = f.out.Len()
 	f.out.WriteString(f.e.lemmaAxioms(uses))
+	f.theoryEnd = f.out.Len()
 	f.emit("(assert (>= %s 0))", st.comps["W"])
 	f.relevant = f.relevantComps()
 	for _, n := range f.e.reg.compOrd {
